@@ -1,2 +1,8 @@
 #!/bin/sh
-exit 0
+# Build the framework from files on disk only (offline).
+set -e
+cd "$(dirname "$0")"
+export CARGO_NET_OFFLINE=true
+mkdir -p .build
+(cd tools/vxextract && CARGO_TARGET_DIR=../../.build/vxextract cargo build --release --offline)
+echo "setup ok"
